@@ -113,6 +113,12 @@ class Alignment:
             and version == "gfa1"):
           return gfapy.CIGAR._from_string(string, valid=valid, version=version)
       break
+    if not first and version == "gfa2" and all(c in "0123456789" for c in string):
+      # only digits: a trace with a single element
+      t = gfapy.Trace._from_string(string)
+      if not valid:
+        t.validate()
+      return t
     raise gfapy.FormatError("Alignment field contains invalid data {}"
                             .format(repr(string)))
 
